@@ -153,6 +153,7 @@ let parse_op (ws : string list) : map_op =
   | "par_extend" -> OpExtend (List.map parse_kv3 (rest 2))
   | "par_split" -> OpLen
   | "serde_de" | "serde_roundtrip" | "serde_set" -> OpLen
+  | "getmanymut" -> OpLen
   | "sinsert" -> OpSetInsert (z 1, z 2)
   | "sreplace" -> OpSetReplace (z 1, z 2)
   | "stake" -> OpSetTake (z 1)
@@ -732,6 +733,19 @@ let () =
        let where = Printf.sprintf "script=%s step=%s op=[%s]" !script stepno (String.concat " " opws) in
        (try
          let op = parse_top opws in
+         (* 1- and 2-byte elements carry only their id (stamp and value are 0); zero-sized elements
+            carry nothing, and the harness' rehash hasher cannot recover the hash they were
+            inserted with: for those only the safety invariant is judged *)
+         let tiny = Z.leb cfg.tsize (zi 2) in
+         let op = if not tiny then op else (match op with
+           | TFindMut (hk, p, _) -> TFindMut (hk, p, Z0)
+           | TRemoveReinsert (hk, p, _, _) -> TRemoveReinsert (hk, p, Z0, Z0)
+           | TEntryInsert (k, _, _) -> TEntryInsert (k, Z0, Z0)
+           | TEntryOrInsert (k, _, _) -> TEntryOrInsert (k, Z0, Z0)
+           | TInsertUnique (k, _, _) -> TInsertUnique (k, Z0, Z0)
+           | TRetain (keep, _) -> TRetain (keep, Z0)
+           | TGetManyMut (r, _) -> TGetManyMut (r, Z0)
+           | o -> o) in
          bump opcount (List.hd opws);
          let pre = parse_dump pre_s and post = parse_dump post_s in
          let tpre = table_of_dump pre and tpost = table_of_dump post in
@@ -742,8 +756,8 @@ let () =
          let panic_key = List.fold_left (fun acc w -> match w with ["hashpanic_key"; k] -> Some (zs k) | _ -> acc) None armws in
          let refuse = List.exists (fun w -> w = ["refuse_nth"; "0"]) armws in
          let other_arm = List.exists (fun w -> match w with [] | ["-"] | ["hashpanic_key"; _] | ["refuse_nth"; "0"] -> false | _ -> true) armws in
-         let lawful = cfg.rule <> "calldep" && cfg.eqrule = "lawful" in
          let zst = Z.eqb cfg.tsize Z0 in
+         let lawful = cfg.rule <> "calldep" && cfg.eqrule = "lawful" && not zst in
          let hf = hash_of None in
          let hasher (e : kv) = hf e.k_id in
          let ret = parse_tout ret_s in
@@ -754,7 +768,11 @@ let () =
            if not (safe_wf_check cfg.backend tpost) then say "B-FAIL %s: post-state violates SafeWF (counters/mirror/shape): %s" where (dump_text post)
            else if lawful && not (hash_wf_check cfg.backend hasher tpost) then say "B-FAIL %s: post-state violates Tags/Reach for its hashes: %s" where (dump_text post)
          end;
-         if do_c && lawful && not other_arm && not is_libpanic then begin
+         let huge = (match op with
+           | TReserve n | TTryReserve n | TShrinkTo n | TWithCapacity n -> Z.ltb (zs "16777216") n
+           | _ -> false) in
+         if huge then bump branch "huge_capacity_request";
+         if do_c && lawful && not other_arm && not is_libpanic && not huge then begin
            incr c_checked;
            (match table_step cfg.backend cfg.tsize cfg.talign cfg.needs_drop rehash_guard_unconditional (hash_of panic_key) refuse tpre op with
             | Fail e -> say "C-MISMATCH %s: model stops with %s but the implementation returned [%s]; pre=%s" where (err_text e) ret_s (dump_text pre)
@@ -767,7 +785,8 @@ let () =
                 if mt <> it then say "C-MISMATCH %s: post-state: model [%s] impl [%s] pre [%s]" where mt it (dump_text pre);
                 let mo = tout_text o and io = (match ret with Some r -> tout_text r | None -> ret_s) in
                 if mo <> io then say "C-MISMATCH %s: return value: model [%s] impl [%s]" where mo io;
-                let me = ev_text evs and ie = (if ev_s = "" then "-" else ev_s) in
+                let strip_r e = (let ws = List.filter (fun w -> not (String.length w > 2 && String.sub w 0 2 = "R:")) (words e) in if ws = [] then "-" else String.concat " " ws) in
+                let me = ev_text evs and ie = strip_r (if ev_s = "" then "-" else ev_s) in
                 if me <> ie then say "C-MISMATCH %s: events: model [%s] impl [%s]" where me ie
               end;
               if List.exists (fun b -> Z.eqb b (zi 128)) t'.ctrl then bump branch "tombstones_present";
@@ -817,7 +836,7 @@ let () =
          if big then bump branch "table_too_big_to_dump";
          let do_b = do_b && not big and do_c = do_c && not big and do_a = do_a && not big in
          let is_serde = String.length opname >= 6 && String.sub opname 0 6 = "serde_" in
-         let is_par = (String.length opname >= 4 && String.sub opname 0 4 = "par_") || opname = "into_par_iter" || is_serde in
+         let is_par = (String.length opname >= 4 && String.sub opname 0 4 = "par_") || opname = "into_par_iter" || is_serde || opname = "getmanymut" in
          if opname = "serde_de" then
            (match words ev_s with
             | first :: _ when String.length first > 2 && String.sub first 0 2 = "A:" ->
@@ -853,6 +872,44 @@ let () =
              spec := occupants tpost
            end;
            bump branch (if fails then "serde_error_path" else "serde_ok_path")
+         end;
+         if opname = "getmanymut" && cfg.rule <> "calldep" && cfg.eqrule = "lawful" && not big then begin
+           (* HashMap::get_many_mut = RawTable::get_many_mut with key-equality closures: the HashTable model *)
+           let add = zs (List.nth opws 1) in
+           let keys = List.map zs (List.filteri (fun j _ -> j >= 2) opws) in
+           let top = TGetManyMut (List.map (fun k -> (k, PId k)) keys, add) in
+           let tret = parse_tout ret_s in
+           if arm = "-" then begin
+             incr c_checked;
+             (match table_step cfg.backend cfg.tsize cfg.talign cfg.needs_drop rehash_guard_unconditional (hash_of None) false tpre top with
+              | Fail e -> say "C-MISMATCH %s: model stops with %s" where (err_text e)
+              | Ok ((t', o), _) ->
+                if table_text t' <> dump_text post then say "C-MISMATCH %s: post-state: model [%s] impl [%s]" where (table_text t') (dump_text post);
+                let mo = tout_text o and io = (match tret with Some r -> tout_text r | None -> ret_s) in
+                if mo <> io then say "C-MISMATCH %s: return value: model [%s] impl [%s]" where mo io)
+           end;
+           incr a_checked;
+           (match tret with
+            | Some TOutUnwind -> ()
+            | Some r ->
+              if not (tspec_accepts (hash_of None) !spec top r (occupants tpost)) then
+                say "A-FAIL %s: the reference rejects result [%s] / contents [%s] (reference contents [%s])" where ret_s
+                  (String.concat "," (sorted_kvs (occupants tpost))) (String.concat "," (sorted_kvs !spec));
+              (* N results in request order: present keys -> their own entry, absent -> none *)
+              (match r with
+               | TOutOpts os ->
+                 List.iteri (fun j (k : z) -> match List.nth_opt os j with
+                   | Some (Some e) -> if not (Z.eqb e.k_id k) then say "A-FAIL %s: request %d (key %s) returned the entry of key %s" where j (string_of_z k) (string_of_z e.k_id)
+                   | Some None -> if List.exists (fun (x : kv) -> Z.eqb x.k_id k) !spec then say "A-FAIL %s: request %d: key %s is present but None was returned" where j (string_of_z k)
+                   | None -> say "A-FAIL %s: fewer results than requests" where) keys
+               | TOutLibPanic ->
+                 let present = List.filter (fun k -> List.exists (fun (x : kv) -> Z.eqb x.k_id k) !spec) keys in
+                 if List.length (List.sort_uniq compare (List.map string_of_z present)) = List.length present then
+                   say "A-FAIL %s: get_many_mut panicked although no two requests name the same present key" where
+               | _ -> ())
+            | None -> say "A-FAIL %s: unparsable result [%s]" where ret_s);
+           spec := occupants tpost;
+           bump branch (Printf.sprintf "get_many_mut_%d" (List.length keys))
          end;
          if opname = "serde_roundtrip" then begin
            incr a_checked;
@@ -899,7 +956,7 @@ let () =
          let lawful = cfg.rule <> "calldep" && cfg.eqrule = "lawful" in
          let hf = hash_of None in
          let hasher (e : kv) = hf e.k_id in
-         let is_libpanic = (match strip_prefix "libpanic" ret_s with Some _ -> parse_out ret_s = None | None -> false) in
+         let is_libpanic = (match strip_prefix "libpanic" ret_s with Some _ -> parse_out ret_s = None && opname <> "getmanymut" | None -> false) in
          if is_libpanic then say "A-FAIL %s: the library panicked: %s" where ret_s;
          let ret = parse_out ret_s in
          (* ---- level B ---- *)
@@ -942,7 +999,7 @@ let () =
               if int_of_nat tpre.mask + 1 < cfg.gw && int_of_nat tpre.mask > 0 then bump branch "small_table")
          end else incr c_skipped;
          (* ---- level A ---- *)
-         if do_a && lawful && !spec_valid && opname <> "par_split" && not is_serde then begin
+         if do_a && lawful && !spec_valid && opname <> "par_split" && not is_serde && opname <> "getmanymut" then begin
            incr a_checked;
            let contents = occupants tpost in
            (match ret with
